@@ -8,12 +8,13 @@ import JRV.Driver.Payload
 import JRV.Driver.Headers
 import JRV.Driver.Wire
 import JRV.Driver.ConfigHeap
+import JRV.Driver.Transport
 
 namespace JRV.Driver
 
 def components : List (String × (List String → String)) := [
   ("echo", echo), ("norm", norm), ("truthy", truthyC), ("pyeq", pyeqC), ("cmpint", cmpIntC)
-] ++ clientComponents ++ payloadComponents ++ headersComponents ++ wireComponents ++ configHeapComponents
+] ++ clientComponents ++ payloadComponents ++ headersComponents ++ wireComponents ++ configHeapComponents ++ transportComponents
 
 def handle (line : String) : String :=
   match JRV.Codec.tokens line with
